@@ -831,3 +831,80 @@ def fits_functions():
     ca = free_function(FITSIO_CPP, "countAuxKeywords"); _no_cxx_left("countAuxKeywords", ca.body); out["countAuxKeywords"] = ca
     rk = free_function(FITSIO_CPP, "reservedFitsKeyword"); _no_cxx_left("reservedFitsKeyword", rk.body); out["reservedFitsKeyword"] = rk
     return out
+
+# ---------------------------------------------------------------------------
+# C interface (src/cinter/splinetable.cpp): every wrapper extracted; the C++ operations it calls become calls of
+# vp_m_<operation>(object, ...) whose contracts (returns a value / throws) are supplied by the check - C18
+CINTER_CPP = "src/cinter/splinetable.cpp"
+CINTER_H = "include/photospline/cinter/splinetable.h"
+CINTER_SKIP = ("splinetable_glamfit", "splinetable_grideval", "ndsparse_destroy")     # array_view / unique_ptr marshalling: not extracted
+
+def cinter_prototypes():
+    h = X.strip_comments(src(CINTER_H)); out = []
+    for m in re.finditer(r"(?m)^((?:const\s+)?[\w]+[\s\*]+)(\w+)\s*\(([^;{]*?)\)\s*;", h):
+        out.append((m.group(2), " ".join(m.group(1).split()), " ".join(m.group(3).split())))
+    return out
+
+def may_throw(method):
+    """does the C++ operation contain a throw statement or an allocation? (scan of every definition of that name in the headers)"""
+    import glob
+    texts = [X.strip_comments(X.read(p)) for p in sorted(glob.glob(os.path.join(REPO, "include/photospline/*.h")) + glob.glob(os.path.join(REPO, "include/photospline/detail/*.h")))]
+    found = False; risky = False
+    for t in texts:
+        k = 0
+        while True:
+            try: start, header, body, end = X.find_function(t, r"(?<![A-Za-z0-9_.>])%s\s*\(" % re.escape(method), occurrence=k)
+            except ExtractionError: break
+            k += 1; found = True
+            if re.search(r"(?<![A-Za-z0-9_])(throw|new|allocate<\w+>|std::vector|std::string|std::[io]?stringstream|std::unique_ptr|std::make_pair|malloc)(?![A-Za-z0-9_])", body): risky = True
+    if not found: raise ExtractionError("C++ operation %s called by the C interface was not found in the headers" % method)
+    return risky
+
+def cinter_functions():
+    s = src(CINTER_CPP); protos = cinter_prototypes(); out = []; methods = {}
+    for name, ret, params in protos:
+        if name in CINTER_SKIP: continue
+        start, header, body, end = X.find_function(s, r"(?<![A-Za-z0-9_])%s\s*\(" % re.escape(name))
+        r = X.Rules(); body = X.strip_comments(body)
+        isptr = ret.endswith("*"); fail = "return(NULL);" if isptr else ("return;" if ret == "void" else "return(1);")
+        body = r.sub("R34_object", r"(?:const\s+)?auto&\s+real_table\s*=\s*\*static_cast<(?:const\s+)?photospline::splinetable<>\*>\(table->data\);", "void* vp_obj = table->data;", body)
+        body = r.sub("R34_object", r"auto\s+real_table\s*=\s*static_cast<photospline::splinetable<>\*>\(table->data\);\s*delete real_table;", "vp_m_destroy(table->data);", body)
+        body = r.sub("R34_construct", r"new photospline::splinetable<>\(\)", "vp_m_construct()", body)
+        body = r.sub("R34_construct", r"new photospline::splinetable<>\(path\)", "vp_m_construct_from(path)", body)
+        body = r.sub("R20_vector", r"std::vector<size_t>\s+permutationv\(real_table\.get_ndim\(\)\);", "size_t permutationv[vp_m_get_ndim(vp_obj) + 1];", body)
+        body = r.sub("R16_copy", r"std::copy\(permutation,\s*permutation\+real_table\.get_ndim\(\),\s*permutationv\.begin\(\)\);", "vp_copy(permutation, permutation + vp_m_get_ndim(vp_obj), permutationv);", body)
+        body = r.sub("R18_size", r"real_table\.permuteDimensions\(permutationv\)", "vp_m_permuteDimensions(vp_obj, permutationv, vp_m_get_ndim(vp_obj))", body)
+        body = r.sub("R32_pair_return", r"auto\s+result\s*=\s*real_table\.write_fits_mem\(\);\s*buffer->data\s*=\s*result\.first;\s*buffer->size\s*=\s*result\.second;", "vp_m_write_fits_mem(vp_obj, &buffer->data, &buffer->size);", body)
+        body = r.sub("R34_call", r"real_table\.(\w+)\(\s*\)", r"vp_m_\1(vp_obj)", body)
+        body = r.sub("R34_call", r"real_table\.(\w+)\(", r"vp_m_\1(vp_obj, ", body)
+        body = r.sub("R3_static_cast", r"\*static_cast<((?:const\s+)?\w+)\*>\((\w+)\)", r"(*(\1*)(\2))", body)
+        body = r.sub("R35_stderr", r"fprintf\(stderr,[^;]*\);", "", body)
+        # R22d: try{ B }catch(std::exception& ex){ H1 }catch(...){ H2 }  ->  B with `if (vp_thrown) { vp_thrown = 0; H2 }` after every statement that calls a C++ operation
+        while True:
+            blank = X.blank_comments_and_strings(body); m = re.search(r"(?<![A-Za-z0-9_])try\s*\{", blank)
+            if not m: break
+            b0 = blank.index("{", m.start()); b1 = X.match_close(blank, b0, "{", "}")
+            m1 = re.match(r"\s*catch\s*\(std::exception&\s*\w+\)\s*\{", blank[b1 + 1:])
+            if not m1: raise ExtractionError("%s: try without catch(std::exception&)" % name)
+            c0 = b1 + 1 + m1.end() - 1; c1 = X.match_close(blank, c0, "{", "}")
+            m2 = re.match(r"\s*catch\s*\(\.\.\.\)\s*\{", blank[c1 + 1:])
+            if not m2: raise ExtractionError("%s: try without catch(...)" % name)
+            d0 = c1 + 1 + m2.end() - 1; d1 = X.match_close(blank, d0, "{", "}")
+            h1 = " ".join(body[c0 + 1:c1].split()); h2 = " ".join(body[d0 + 1:d1].split())
+            if h1 != h2: raise ExtractionError("%s: the two catch handlers differ (%r vs %r)" % (name, h1, h2))
+            handler = "if (vp_thrown) { vp_thrown = 0; %s }" % h2
+            B = body[b0 + 1:b1]
+            B = re.sub(r"return\s*\(\s*(vp_m_\w+\([^;]*\))\s*\);", lambda mm: "{ %s vp_r = %s; %s return(vp_r); }" % (ret, mm.group(1), handler), B)
+            def after(mm): return mm.group(0) + " " + handler
+            B = re.sub(r"(?<![=\w] )(?<!vp_r = )(?:^|(?<=[;{}:\s]))[^;{}]*vp_m_\w+\([^;]*\);", lambda mm: mm.group(0) if "vp_r =" in mm.group(0) else mm.group(0) + " " + handler, B)
+            body = body[:m.start()] + "{" + B + "}" + body[d1 + 1:]; r.counts["R22_try_catch"] = r.counts.get("R22_try_catch", 0) + 1
+        for bad in ("std::", "static_cast", "real_table", "auto", "try", "catch", "new ", "delete "):
+            if re.search(r"(?<![A-Za-z0-9_])" + re.escape(bad), body): raise ExtractionError("%s: unhandled C++ construct '%s' left after the rewrite rules" % (name, bad))
+        for mm in re.finditer(r"vp_m_(\w+)\(", body):
+            meth = mm.group(1); methods.setdefault(meth, set())
+            stmt_start = max(body.rfind(";", 0, mm.start()), body.rfind("{", 0, mm.start()), body.rfind("}", 0, mm.start())) + 1
+            pre = body[stmt_start:mm.start()]
+            if re.search(r"(return\s*\(\s*|vp_r\s*=\s*)$", pre): methods[meth].add(ret)
+        e = Extracted(name, "%s %s(%s)" % (ret, name, params), body, r, CINTER_CPP, X.find_loops(body)); e.ret = ret
+        out.append(e)
+    return out, methods
